@@ -370,6 +370,9 @@ func TestPipeline(t *testing.T) {
 	rapid.Check(t, func(t *rapid.T) {
 		o := j5sgen.DefaultOpts()
 		o.Entities = true
+		// names that do not survive a camel -> snake -> camel round trip (userID,
+		// HTTPServer, snake_name, aB): the stages hand names to each other in both forms
+		o.OddPathParams = true
 		b, classes := j5sgen.Draw(t, o)
 		nt := classes["path-parameter"] || classes["entity"]
 		cls := []string{}
